@@ -1,4 +1,6 @@
 import SedVerif.Proofs.Match
+import SedVerif.Model.Pipeline
+import SedVerif.Proofs.RoundTrip
 /-!
 # C07 — convolved-flux files keep model identity, identically in both package formats
 
@@ -167,6 +169,153 @@ theorem C07_formats [Zero K] (cv ce : S → K) (w : K) (aps : Option (List K))
       (htable.mem_iff).trans (hcubeNames.mem_iff).symm
     refine ⟨by simp [hmem], fun hX => ?_⟩
     simp [htable.mem_iff.mpr hX]
+
+/-! ### The same with the concrete convolution and the concrete readers -/
+
+section concrete
+variable {K : Type} [Zero K] [One K] [Add K] [Sub K] [Mul K] [Div K] [Neg K] [LinearOrder K]
+
+/-- the `SED` object of model `X` in increasing frequency: grid `nus` (wavelengths `wavs`), one flux row
+    and one uncertainty row per aperture -/
+def canonSed (aps wavs nus : List K) (F U : String → List (List K)) (X : String) : RT.Sed K :=
+  { name := X, wav := wavs, nu := nus, aps := some aps, flux := F X, err := some (U X) }
+
+/-- the four HDUs of `seds/<X>.fits`, stored in increasing (`dec = false`) or decreasing frequency -/
+def storedSedFile (aps wavs nus : List K) (F U : String → List (List K)) (X : String) (dec : Bool) :
+    RT.SedFile K :=
+  if dec then
+    { name := X, wav := wavs.reverse, nu := nus.reverse, aps := aps,
+      flux := (F X).map List.reverse, err := (U X).map List.reverse }
+  else { name := X, wav := wavs, nu := nus, aps := aps, flux := F X, err := U X }
+
+/-- the cube in increasing frequency, models in cube order -/
+def canonCube (aps wavs : List K) (F U : String → List (List K)) (names : List String) : RT.Cube K :=
+  { names := names, wav := wavs, aps := some aps, val := names.map F, unc := some (names.map U) }
+
+/-- the cube object written to `flux.fits`, spectral axis in either order -/
+def storedCube (aps wavs : List K) (F U : String → List (List K)) (names : List String) (dec : Bool) :
+    RT.Cube K :=
+  if dec then RT.reverseSpectralCube (canonCube aps wavs F U names) else canonCube aps wavs F U names
+
+/-- the cube as `_convolve_model_dir_2` slices it: model `m`, aperture `ia` ↦ (`val[m, ia, :]`,
+    `unc[m, ia, :]`) on the grid `cube.nu`; `none` when the cube has no uncertainties (the code
+    raises) -/
+def cubeAsMatch (toNu : K → K) (c : RT.Cube K) : Option (Match.Cube K (Pipe.Spec K)) :=
+  match c.unc with
+  | none => none
+  | some unc =>
+    some { names := c.names, apertures := c.aps,
+           seds := List.zipWith (fun v u => fun ia =>
+             (⟨(c.wav.map toNu, v.getD ia []), (c.wav.map toNu, u.getD ia [])⟩ : Ap (Pipe.Spec K))) c.val unc }
+
+theorem zipWith_map_map {α β γ δ : Type} (f : β → γ → δ) (g : α → β) (h : α → γ) : ∀ l : List α,
+    List.zipWith f (l.map g) (l.map h) = l.map (fun x => f (g x) (h x))
+  | [] => rfl
+  | a :: l => by simp [zipWith_map_map f g h l]
+
+/-- `SED.read(order='nu')` returns the same object whichever way the file stores the spectral axis -/
+theorem sedRead_stored (aps wavs nus : List K) (F U : String → List (List K)) (X : String) (dec : Bool)
+    (hinc : nus.Pairwise (· < ·)) (hlen : 2 ≤ nus.length) :
+    RT.sedRead .nu (storedSedFile aps wavs nus F U X dec) = some (canonSed aps wavs nus F U X) := by
+  cases dec with
+  | false =>
+    have h := RT.firstGtLast_inc nus hinc (by intro h; simp [h] at hlen)
+    rw [RT.sedRead_nu _ false (by simpa [storedSedFile] using h)]
+    rfl
+  | true =>
+    have hdec : nus.reverse.Pairwise (· > ·) := List.pairwise_reverse.mpr hinc
+    have h := RT.firstGtLast_dec nus.reverse hdec (by simpa using hlen)
+    rw [RT.sedRead_nu _ true (by simpa [storedSedFile] using h)]
+    simp [storedSedFile, RT.fileSed, RT.reverseSpectral, canonSed]
+
+/-- `SEDCube.read(order='nu')` likewise -/
+theorem cubeRead_stored (toNu : K → K) (aps wavs nus : List K) (F U : String → List (List K))
+    (names : List String) (dec : Bool) (hnu : wavs.map toNu = nus)
+    (hinc : nus.Pairwise (· < ·)) (hlen : 2 ≤ nus.length) :
+    RT.cubeRead toNu .nu (RT.cubeWrite toNu (storedCube aps wavs F U names dec))
+      = some (canonCube aps wavs F U names) := by
+  cases dec with
+  | false =>
+    have h := RT.firstGtLast_inc nus hinc (by intro h; simp [h] at hlen)
+    rw [RT.cubeRead_nu toNu _ false (by simpa [storedCube, canonCube, hnu] using h)]
+    rfl
+  | true =>
+    have hdec : nus.reverse.Pairwise (· > ·) := List.pairwise_reverse.mpr hinc
+    have h := RT.firstGtLast_dec nus.reverse hdec (by simpa using hlen)
+    rw [RT.cubeRead_nu toNu _ true (by
+      simpa [storedCube, canonCube, RT.reverseSpectralCube, List.map_reverse, hnu] using h)]
+    simp [storedCube, RT.reverseSpectralCube_invol]
+
+/-- **C07 (formats, concrete).** `C07_formats` with nothing left abstract: the functionals are the
+    code's `np.sum(flux * f.rebin(nu).response)` and `np.sum((error * f.rebin(nu).response) ** 2)`
+    (`Pipe.cvOf`, `Pipe.ceOf` of one filter `flt`), the per-file package is read by `SED.read(order='nu')`
+    file by file — each file stored in increasing or decreasing frequency as it likes (`files`: name and
+    storage flag, in directory-listing order), each convolved on its own grid after the flip — and the
+    cube by `SEDCube.read(order='nu')` from either storage order, convolved aperture slice by aperture
+    slice on `cube.nu`.  For equal SEDs on a common grid both files come out, rows follow the parameter
+    table / the cube, and the row labelled `X` is the same in both: flux `Σ F_X R` and variance
+    `Σ (σ_X R)²` per aperture, `R = rebin flt nus`. -/
+theorem C07_formats_concrete (flt : List (K × K)) (w : K) (toNu : K → K) (aps wavs nus : List K)
+    (F U : String → List (List K)) (files : List (String × Bool)) (table1 cubeNames : List String)
+    (cubeDec : Bool)
+    (hnu : wavs.map toNu = nus) (hinc : nus.Pairwise (· < ·)) (hlen : 2 ≤ nus.length)
+    (hne : files ≠ []) (h30 : ∀ p ∈ files, take30 p.1 = p.1)
+    (htable : (table1.map strip).Perm (files.map (·.1)))
+    (hcube : cubeNames.Perm (files.map (·.1))) :
+    (∀ p ∈ files, RT.sedRead .nu (storedSedFile aps wavs nus F U p.1 p.2)
+        = some (canonSed aps wavs nus F U p.1)) ∧
+    RT.cubeRead toNu .nu (RT.cubeWrite toNu (storedCube aps wavs F U cubeNames cubeDec))
+        = some (canonCube aps wavs F U cubeNames) ∧
+    ∃ cube f1 f2, cubeAsMatch toNu (canonCube aps wavs F U cubeNames) = some cube ∧
+      convolveV1 (Pipe.cvOf flt) (Pipe.ceOf flt) w
+        (files.map (fun p => Pipe.asSedFile (canonSed aps wavs nus F U p.1))) table1 = .ok f1 ∧
+      convolveV2 (Pipe.cvOf flt) (Pipe.ceOf flt) w cube cubeNames = .ok f2 ∧
+      f1.names = table1.map strip ∧ f2.names = cubeNames ∧
+      f1.apertures = some aps ∧ f2.apertures = some aps ∧ f1.filtwav = w ∧ f2.filtwav = w ∧
+      ∀ X, f1.lookup X = f2.lookup X ∧
+        (X ∈ files.map (·.1) → f1.lookup X = some
+          ((List.range aps.length).map (fun ia => Pipe.cvOf flt (nus, (F X).getD ia [])),
+           (List.range aps.length).map (fun ia => Pipe.ceOf flt (nus, (U X).getD ia [])))) := by
+  refine ⟨fun p _ => sedRead_stored aps wavs nus F U p.1 p.2 hinc hlen,
+    cubeRead_stored toNu aps wavs nus F U cubeNames cubeDec hnu hinc hlen, ?_⟩
+  let sedOf : String → Nat → Ap (Pipe.Spec K) := fun X ia =>
+    ⟨(nus, (F X).getD ia []), (nus, (U X).getD ia [])⟩
+  let cube : Match.Cube K (Pipe.Spec K) :=
+    { names := cubeNames, apertures := some aps, seds := cubeNames.map sedOf }
+  have hcubeEq : cubeAsMatch toNu (canonCube aps wavs F U cubeNames) = some cube := by
+    simp only [cubeAsMatch, canonCube, hnu, zipWith_map_map]
+    rfl
+  have hnames : (files.map (fun p => Pipe.asSedFile (canonSed aps wavs nus F U p.1))).map (·.name)
+      = files.map (·.1) := by
+    simp [List.map_map, Function.comp_def, Pipe.asSedFile, canonSed]
+  obtain ⟨f1, f2, h1, h2, h3, h4, h5, h6, h7, h8, h9⟩ :=
+    C07_formats (Pipe.cvOf flt) (Pipe.ceOf flt) w (some aps) sedOf
+      (files.map (fun p => Pipe.asSedFile (canonSed aps wavs nus F U p.1))) table1 cube
+      (by simpa using hne)
+      (by
+        intro s hs
+        obtain ⟨p, hp, rfl⟩ := List.mem_map.mp hs
+        exact ⟨rfl, rfl, h30 p hp⟩)
+      (by rw [hnames]; exact htable) rfl rfl (by rw [hnames]; exact hcube)
+  refine ⟨cube, f1, f2, hcubeEq, h1, h2, h3, h4, h5, h6, h7, h8, fun X => ?_⟩
+  obtain ⟨g1, g2⟩ := h9 X
+  refine ⟨g1, fun hX => ?_⟩
+  rw [g2 (by rw [hnames]; exact hX)]
+  rfl
+
+-- hypotheses of `C07_formats_concrete` on a concrete grid (wavelengths 4, 2, 1 ↦ frequencies 1, 2, 4), two files
+-- stored in opposite spectral orders, a padded permuted table, a cube in a third order
+example : ([4, 2, 1] : List Rat).map (fun x => 4 / x) = [1, 2, 4] ∧ ([1, 2, 4] : List Rat).Pairwise (· < ·) ∧
+    2 ≤ ([1, 2, 4] : List Rat).length ∧ [("m2", true), ("m1", false)] ≠ ([] : List (String × Bool)) ∧
+    (∀ p ∈ [("m2", true), ("m1", false)], take30 p.1 = p.1) ∧
+    (["m1 ", "m2"].map strip).Perm ([("m2", true), ("m1", false)].map (·.1)) ∧
+    ["m1", "m2"].Perm ([("m2", true), ("m1", false)].map (·.1)) := by
+  refine ⟨by decide +kernel, by decide +kernel, by decide, by decide, ?_, by decide, by decide⟩
+  intro p hp
+  simp only [List.mem_cons, List.not_mem_nil, or_false] at hp
+  rcases hp with rfl | rfl <;> decide
+
+end concrete
 
 /-! ### Non-vacuity: concrete packages meet the hypotheses and exercise every step -/
 
